@@ -203,6 +203,7 @@ def corpus():
 def run(ctx, sf):
     sf.hbar = 2
     simcorr.run_fock_corr(ctx, ctx.n(330, 3300))
+    simcorr.run_bos_corr(ctx, ctx.n(100, 1000))
     simcorr.run_gauss_corr(ctx, ctx.n(150, 1500))
     for spec in corpus():
         ctx.count("corpus", spec, nontrivial(spec))
